@@ -15,6 +15,7 @@ from lib import dbcgen as G
 from lib import matrices as M
 
 PID = "C18"
+EXTRA_PROPS = ("C18s",)
 RULE = ("case 'conv' = (generated DBC matrix with unique frame names, signal names unique per frame (half of the matrices reuse them across frames), several senders and receivers, ECUs that send and receive, "
         "receive-only and unreferenced ECUs, user attributes on frames and signals, zero-length signals, FD frames, frames of 1..64 bytes; "
         "no option, one option or a pair of options out of deleteEcu, renameEcu, deleteFrame, renameFrame, deleteSignal, renameSignal, "
